@@ -113,8 +113,19 @@ claim("C07",
  "Reduced scope: transaction history (historydb, spent-in-block links), predicted balances in Visor.GetBalanceOfAddresses, transaction views and block queries are outside this revision. bolt replaced by a key/value model; ids are concrete distinct tags, the snapshot hash is uninterpreted.",
  "DESIGN.md §4 C07 (H1/H3 built)")
 
+
+claim("C06",
+ "Bounded check of the unconfirmed pool over a key/value model of its buckets, running the real InjectTransaction, Refresh, RemoveInvalid, RemoveTransactions and the generated codec on every history 'inject A, optionally re-inject A, inject B, then refresh / remove-invalid / removal of A after a block' with every verdict (ok, soft violation, hard violation, other error) at every step: a transaction is stored only without a hard violation or failure, with flag 1 iff no soft violation; re-submission updates the single entry and is reported as known; after refresh every stored flag equals a fresh re-check and the transactions that became valid are reported; remove-invalid removes exactly the hard-invalid ones; a transaction contained in an accepted block leaves the pool.",
+ "The deciding step is path enumeration with symbolic leaf data (amounts, times) - the history space is finite and explored completely within the bound; rule checking is a free per-transaction verdict (C09/C11), bolt is replaced by the key/value model, ids are concrete tags. Outside: user-submission wiring (Visor.InjectUserTransaction), interleavings with API goroutines, histories longer than the bound.",
+ "DESIGN.md §4 C06")
+
+claim("C20",
+ "Symbolic crash-point check of file.SaveBinary (the single save routine behind wallet.Save, kvstorage and the peers file) over an ordered-write file-system model: create-or-truncate, write (a crash leaves an arbitrary prefix), atomic remove and rename. The crash point (before any of the file-system steps, or during a write with every torn length) and the old/new contents are solver variables: after any crash the target holds its previous or its new complete content (a new file is absent or complete), no leftover file matches the wallet loader's *.wlt pattern, and a completed save leaves exactly the new content.",
+ "The file system is a model (no reordering of writes across files, no fsync semantics); the loaders (wallet.NewService over *.wlt, kvstorage over its own file) are represented by the file-content criterion stated above rather than executed (encoding/json is not encoded). The serialisation before the save and directory listing are outside.",
+ "DESIGN.md §4 C20")
+
 _pending = "check not built yet in this revision (work in progress; see DESIGN.md §4)"
-for p in ["C06","C10","C14","C16","C17","C19","C20","C26","C27","C30","C33"]:
+for p in ["C10","C14","C16","C17","C19","C26","C27","C30","C33"]:
     na(p, _pending)
 na("C08", "crash points inside boltdb's mmap/page commit and fsync ordering plus the goroutine/channel WalkChain pipeline cannot be encoded by an SSA->SMT executor (no I/O ordering or scheduling semantics)")
 na("C32", "race freedom and shutdown under all goroutine schedules: the encoder has no thread/channel semantics; the race detector is a dynamic technique outside this family")
